@@ -5,6 +5,7 @@
 
 pub mod grammar;
 pub mod infra;
+pub mod realsock;
 pub mod shutdown;
 pub mod sniff;
 pub mod srvfault;
